@@ -133,7 +133,7 @@ pub fn format_current_ds(
         "offset_from_master",
         "Time difference between a Master PTP Instance as calculated by the Slave instance",
         MetricType::Gauge,
-        Some(Unit::Nanoseconds),
+        Some(Unit::Seconds),
         vec![Measurement {
             labels: labels.clone(),
             value: current_ds.offset_from_master.seconds(),
@@ -145,7 +145,7 @@ pub fn format_current_ds(
         "mean_delay",
         "Packet delay between a Master PTP Instance as calculated by the Slave instance",
         MetricType::Gauge,
-        Some(Unit::Nanoseconds),
+        Some(Unit::Seconds),
         vec![Measurement {
             labels: labels.clone(),
             value: current_ds.mean_delay.seconds(),
